@@ -20,6 +20,7 @@ fn alphabet(property: &str) -> (Idx, Vec<Op>) {
         // contested unique values: name (scalar), codes (array), (age,opt) tuple
         let idx = Idx {
             age_opt: true,
+            opt_opt2: true,
             body: true,
             emb: false,
             ..Idx::ALL
@@ -30,6 +31,8 @@ fn alphabet(property: &str) -> (Idx, Vec<Op>) {
             Op::Add(4), // contests code x and tuple (10,1)
             Op::Add(1),
             Op::Add(5), // contests code y
+            Op::Add(6), // tuple (opt, opt2) = (7, none)
+            Op::Add(7), // tuple (opt, opt2) = (none, 7): a different tuple
             Op::AddInvalid,
             Op::Update(1, 1),  // name := n1
             Op::Update(2, 6),  // name := n0
@@ -67,6 +70,7 @@ fn alphabet(property: &str) -> (Idx, Vec<Op>) {
             Op::UpdateUnknown(1),
             Op::Remove(1),
             Op::Remove(2),
+            Op::LoseAndReconcile(1),
             Op::Flush,
             Op::CompactBtree,
             Op::CompactBm25,
@@ -193,6 +197,8 @@ fn op_kind(op: &Op) -> &'static str {
         Op::UpdateUnknown(_) => "update-unknown",
         Op::Remove(_) => "remove",
         Op::Get(_) => "get",
+        Op::LoseAndReconcile(_) => "lose-and-reconcile",
+        Op::SetExtSync(_) => "ext",
         Op::Flush => "flush",
         Op::CompactBtree | Op::CompactBm25 => "compact",
         Op::SaveExt(_) | Op::RemoveExt => "ext",
